@@ -682,6 +682,7 @@ func (ctx *Context) evaluate() {
 			if ctx.Error != nil {
 				return
 			}
+			stackPush(val) // 赋值表达式的值为所赋的值，与 store 保持一致
 		case typeAttrSet:
 			attrVal, obj := stackPop2()
 			attrName := code.Value.(string)
@@ -693,6 +694,7 @@ func (ctx *Context) evaluate() {
 			if ctx.Error != nil {
 				return
 			}
+			stackPush(attrVal)
 		case typeAttrGet:
 			obj := stackPop()
 			attrName := code.Value.(string)
@@ -733,6 +735,7 @@ func (ctx *Context) evaluate() {
 			if ctx.Error != nil {
 				return
 			}
+			stackPush(val)
 
 		case typeReturn:
 			solveDetail()
